@@ -9,6 +9,7 @@ package forwarder
 import (
 	"net"
 	"slices"
+	"unicode/utf8"
 
 	"github.com/prometheus/client_golang/prometheus"
 	"github.com/prometheus/client_golang/prometheus/promauto"
@@ -73,6 +74,10 @@ func (m *dialerMetrics) close(addr string) {
 func addr2Host(addr string) string {
 	host, _, err := net.SplitHostPort(addr)
 	if err != nil {
+		return "unknown"
+	}
+	if !utf8.ValidString(host) {
+		// Not a valid label value, prometheus would panic.
 		return "unknown"
 	}
 
